@@ -370,7 +370,7 @@ def api_surface(ctx, rng, cd, dicts, verdict):
             r = codec.parse_ok(tout.get(i, "ERR missing"))
             line = [l for l in tl if l.split(" ")[1] == i][0]
             if exp == "ok" and (r[0] != "OK" or r[1] != xx):
-                ctx.violation(dict(kind="api", variant="o1", line=line, result=(r[1] if r[0] == "ERR" else "content differs")),
+                ctx.violation(dict(kind="api", variant="o1", line=line, result=(r[1] if r[0] == "ERR" else "content differs"), expect_hex=xx.hex()),
                               what="multi-DDict table holding a raw-content DDict (dictID 0) and the frame's own dictionary: decoding fails (%s, case %s)" % (
                                   r[1] if r[0] == "ERR" else "wrong bytes", i), key="C08-multiddict-id0-entry-matches-any-id")
             if exp == "refuse" and r[0] == "OK":
@@ -402,7 +402,8 @@ def api_replay(ctx, rp):
     out, errs = codec._run_chunks(exe, [rp["line"]], 1, 2400)
     rest = list(out.values())[0] if out else "no output"
     core.log("replay: %s" % rest[:600])
-    if errs or not out or rest.startswith(("FAIL", "ERR")) or rp.get("result") == "accepted" and rest.startswith("OK"):
+    wrong = "expect_hex" in rp and rest.startswith("OK ") and rest.split(" ")[1] != (rp["expect_hex"] or "-")
+    if errs or not out or wrong or rest.startswith(("FAIL", "ERR")) or rp.get("result") == "accepted" and rest.startswith("OK"):
         ctx.violation(rp, what="replayed: %s %s" % (rest[:300], (errs[0][1][-300:] if errs else "")))
 
 
